@@ -1,0 +1,42 @@
+//go:build verif
+
+// Contracts for the govc verifier (/verif/govc). Comment-only; see core/zz_contracts_verif.go.
+
+package main
+
+//@ extern-pure log.Printf, encoding/json.Marshal
+
+// ---- C16: the Bolt-backed cron service ----------------------------------------------------------
+// Every operation on a job works in the partition of the job's ACCOUNT (jobs<p> / time<p>).
+//@ ghost lastPartArg string
+//@ func (*Cron).Partition
+//@   ghost-ensures lastPartArg == account
+//@   also-modifies lastPartArg
+//@ func (*Cron).delete
+//@   ensures[C16.crolt_delete_partition_of_account] result1 == nil ==> lastPartArg == account
+//@ func (*Cron).update
+//@   ensures[C16.crolt_update_partition_of_account] result1 == nil ==> lastPartArg == old(j.Account)
+//@ func (*Cron).Get
+//@   ensures[C16.crolt_get_partition_of_account] result1 == nil ==> lastPartArg == account
+
+// The job table and the time index are updated together inside one transaction closure.
+//@ ghost puts int
+//@ ghost dels int
+//@ extern (*github.com/boltdb/bolt.Bucket).Put
+//@   ghost-ensures puts == old(puts) + 1
+//@   also-modifies puts
+//@   pure-effects
+//@ extern (*github.com/boltdb/bolt.Bucket).Delete
+//@   ghost-ensures dels == old(dels) + 1
+//@   also-modifies dels
+//@   pure-effects
+//@ extern (*github.com/boltdb/bolt.Bucket).Get
+//@   pure-effects
+//@ extern (*github.com/boltdb/bolt.Tx).Bucket
+//@   ensures result != nil
+//@   pure-effects
+//@ func (*Cron).update$1
+//@   ensures[C16.crolt_update_writes_both_buckets] result == nil ==> puts == old(puts) + 2
+//@   ensures[C16.crolt_update_drops_old_time_entry] result == nil && oldTid != "" ==> dels == old(dels) + 1
+//@ func (*Cron).delete$1
+//@   ensures[C16.crolt_delete_removes_both_or_none] result == nil ==> dels == old(dels) + 2 || dels == old(dels)
